@@ -756,7 +756,7 @@ where
                 BinOp {
                     apply: cross,
                     prio: 4,
-                    is_commutative: true,
+                    is_commutative: false,
                 },
             ),
             Operator::make_bin(
@@ -865,7 +865,7 @@ where
                 BinOp {
                     apply: |a, b| Val::Bool(a == b),
                     prio: 1,
-                    is_commutative: true,
+                    is_commutative: false,
                 },
             ),
             Operator::make_bin(
@@ -905,7 +905,7 @@ where
                 BinOp {
                     apply: |a, b| Val::Bool(a != b),
                     prio: 1,
-                    is_commutative: true,
+                    is_commutative: false,
                 },
             ),
             Operator::make_bin(
